@@ -9,7 +9,10 @@ def extract_all(ctx, broken):
     ok2, log2 = ctx.extract("decodercfg", ["lean/KafkaVerif/Gen/DecoderCfg.lean"])
     if not ok2:
         broken.append({"kind": "obligation", "name": "translator go/extract decodercfg", "detail": log2[-1500:]})
-    return ok and ok2
+    ok3, log3 = ctx.extract("recordcfg", ["lean/KafkaVerif/Gen/RecordCfg.lean"])
+    if not ok3:
+        broken.append({"kind": "obligation", "name": "translator go/extract recordcfg", "detail": log3[-1500:]})
+    return ok and ok2 and ok3
 
 
 def oracle_lines(ctx, oracle, reqs):
